@@ -5,6 +5,7 @@ import (
 	"errors"
 	"fmt"
 	"io"
+	"reflect"
 	"testing"
 	"time"
 
@@ -254,7 +255,7 @@ func readLogFrom(src io.Reader, n int, drw *dialect.ReadWriter) ([]*tlog.Entry, 
 
 func TestC20Logs(t *testing.T) {
 	rec := evid.New(t, "C20", "generated entry sequences (0..30 entries: v1/v2/signed frames, raw and dialect messages, times on both sides of the epoch with sub-microsecond parts, unencodable entries interleaved) written with tlog.Writer; oracles: file bytes == concatenation of BE64(floor(t,us)) ++ reference frame bytes, unencodable entries return an error and leave the file untouched, read-back equals what was written, every truncation point of the file yields exactly the complete entries before the cut and then an error, a failing io.Writer is reported; non-trivial = >=3 entries of mixed versions with a negative or sub-us timestamp, or an unencodable entry between good ones; distinct by hash of the file")
-	rec.Require("cut-in-timestamp", "cut-in-header", "cut-in-payload", "cut-in-signature", "bad-entry-between-good", "negative-time", "sub-us", "writer-fault", "writer-fault-on-a-file-like-sink", "entries-written-after-a-reported-sink-failure", "file-after-an-all-or-nothing-sink-failure-is-the-accepted-entries", "dialect", "longer-than-reader-window", "longer-than-3-reader-windows", "file-arrives-in-pieces", "unsigned-entry-with-leftover-signature-fields")
+	rec.Require("cut-in-timestamp", "cut-in-header", "cut-in-payload", "cut-in-signature", "bad-entry-between-good", "negative-time", "sub-us", "writer-fault", "writer-fault-on-a-file-like-sink", "entries-written-after-a-reported-sink-failure", "file-after-an-all-or-nothing-sink-failure-is-the-accepted-entries", "one-message-value-updated-and-logged-again", "dialect", "longer-than-reader-window", "longer-than-3-reader-windows", "file-arrives-in-pieces", "unsigned-entry-with-leftover-signature-fields")
 	dpool := pool(t)
 	errBoom := errors.New("injected write error")
 	evid.Check(t, rec, evid.N(4000, 12000), func(t *rapid.T) {
@@ -448,6 +449,40 @@ func TestC20Logs(t *testing.T) {
 				rec.Class("damaged-entry-reported-as-parse-error", 1)
 				break
 			}
+		}
+		// a logger that keeps one message value and updates it from entry to entry (periodic telemetry): what is in the
+		// file is what the value held when each entry was written
+		if di != nil {
+			lay := di.layouts[di.ids[rapid.IntRange(0, len(di.ids)-1).Draw(t, "reused_message_type")]]
+			fw3 := &failingWriter{}
+			w3 := &tlog.Writer{ByteWriter: fw3, DialectRW: drw}
+			if err := w3.Initialize(); err != nil {
+				t.Fatalf("BROKEN: %v", err)
+			}
+			held := reflect.New(lay.Type)
+			v2 := rapid.Bool().Draw(t, "reused_v2") || held.Interface().(message.Message).GetID() > 255
+			for k := 0; k < rapid.IntRange(2, 4).Draw(t, "reused_entries"); k++ {
+				val := gen.Value(t, lay)
+				held.Elem().Set(reflect.ValueOf(val).Elem())
+				f := ref.Frame{V2: v2, Seq: byte(k), Sys: 7, Comp: 8, ID: held.Interface().(message.Message).GetID()}
+				f.Payload = lay.Encode(val, v2)
+				f.Checksum = f.ChecksumFor(lay.CRCExtra)
+				var lf frame.Frame = &frame.V1Frame{SequenceNumber: f.Seq, SystemID: 7, ComponentID: 8, Message: held.Interface().(message.Message), Checksum: f.Checksum}
+				if v2 {
+					lf = &frame.V2Frame{SequenceNumber: f.Seq, SystemID: 7, ComponentID: 8, Message: held.Interface().(message.Message), Checksum: f.Checksum}
+				}
+				before := fw3.buf.Len()
+				tm := time.UnixMicro(int64(1000 + k))
+				if err := w3.Write(&tlog.Entry{Time: tm, Frame: lf}); err != nil {
+					t.Fatalf("entry %d of a reused %s value: Write failed: %v", k, lay.MsgName, err)
+				}
+				wantB := append(be64(tm.UnixMicro()), f.Bytes()...)
+				if got := fw3.buf.Bytes()[before:]; !bytes.Equal(got, wantB) {
+					evid.ReplayNote("C20", "TestC20Logs", fmt.Sprintf("one %s value updated and logged again (entry %d): file has %x, the value held %x", lay.MsgName, k, got, wantB))
+					t.Fatalf("the application keeps one %s value, updates it and logs it again (entry %d, v2=%v): the file got\n %x\nthe value held at that moment encodes as\n %x", lay.MsgName, k, v2, got, wantB)
+				}
+			}
+			rec.Class("one-message-value-updated-and-logged-again", 1)
 		}
 		// a failing io.Writer is reported
 		if len(good) > 0 {
